@@ -74,12 +74,13 @@ def gen_perm(rng):
 def gen_attr_extra(rng, small_values=False):
     rerr = werr = 0
     flavor = 0
-    if rng.chance(1, 6):
+    if rng.chance(1, 4):
         flavor = rng.choice([1, 2, 3])            # 1 AttributeValue sync, 2 AttributeValue async, 3 AttributeValueV2
-        if rng.chance(1, 3):
-            rerr = rng.choice([0x80, 0x02, 0x0E, 0x05])
-        if rng.chance(1, 3):
-            werr = rng.choice([0x81, 0x03, 0xFC])
+        # what the value object does: returns / raises ATT_Error(code) / raises something else (-1)
+        if rng.chance(2, 5):
+            rerr = rng.choice([0x80, 0x02, 0x0E, 0x05, -1, -1])
+        if rng.chance(2, 5):
+            werr = rng.choice([0x81, 0x03, 0xFC, -1, -1])
     return {'perm': gen_perm(rng), 'value': gen_value(rng, 40 if small_values else 512).hex(),
             'rerr': rerr, 'werr': werr, 'flavor': flavor}
 
@@ -89,8 +90,9 @@ def gen_db(rng, max_services=3, small_values=False):
     for _ in range(rng.range(1, max_services)):
         chars = []
         for _ in range(rng.range(0, 3)):
-            c = {'uuid': uuid_hex(rng, rng.choice([2, 2, 2, 16, 4])), 'props': rng.choice([0x02, 0x0A, 0x0E, 0x08]),
-                 'descs': []}
+            # NOTIFY / INDICATE properties make the server create a CCCD (callback-backed, per bearer)
+            c = {'uuid': uuid_hex(rng, rng.choice([2, 2, 2, 16, 4])),
+                 'props': rng.choice([0x02, 0x0A, 0x0E, 0x08, 0x1A, 0x2A, 0x3A]), 'descs': []}
             c.update(gen_attr_extra(rng, small_values))
             for _ in range(rng.choice([0, 0, 1, 2])):
                 d = {'uuid': uuid_hex(rng, rng.choice([2, 2, 16]))}
@@ -151,13 +153,17 @@ def _make_value(att, spec, holders):
     h = Holder(value, rerr, werr, flavor)
 
     def read(_bearer_or_connection):
-        if h.rerr:
+        if h.rerr > 0:
             raise att.ATT_Error(h.rerr)
+        if h.rerr < 0:
+            raise ValueError('read function of the application fails')
         return h.value
 
     def write(_bearer_or_connection, v):
-        if h.werr:
+        if h.werr > 0:
             raise att.ATT_Error(h.werr)
+        if h.werr < 0:
+            raise KeyError('write function of the application fails')
         h.value = bytes(v)
 
     async def aread(x):
@@ -168,11 +174,16 @@ def _make_value(att, spec, holders):
         await asyncio.sleep(0)
         write(x, v)
 
+    # a missing function: AttributeValue.read / write raise InvalidOperationError (e.g. the common
+    # CharacteristicValue(write=...) of a write-only control point)
+    missing = (value[0] if value else h.rerr + h.werr) % 2 == 0
+    no_read = h.rerr < 0 and missing
+    no_write = h.werr < 0 and missing
     if flavor == 1:
-        return att.AttributeValue(read=read, write=write), h
+        return att.AttributeValue(read=None if no_read else read, write=None if no_write else write), h
     if flavor == 2:
-        return att.AttributeValue(read=aread, write=awrite), h
-    return att.AttributeValueV2(read=read, write=write), h
+        return att.AttributeValue(read=None if no_read else aread, write=None if no_write else awrite), h
+    return att.AttributeValueV2(read=None if no_read else read, write=None if no_write else write), h
 
 
 class Env:
@@ -255,17 +266,26 @@ class Env:
 
     # ---- the database as the model sees it
     def model_db(self):
+        from bumble.gatt import Characteristic
         out = []
+        last_char = 0
         for a in self.server.attributes:
+            if isinstance(a, Characteristic):
+                last_char = a.handle
             h = self.holders.get(a.handle)
+            cccd = 0
             if h is not None:
                 value, rerr, werr = h.value, h.rerr, h.werr
             else:
                 value, rerr, werr = a.value, 0, 0
                 if not isinstance(value, (bytes, bytearray)):
-                    value = b'\x00\x00'          # CCCD (AttributeValueV2 made by the server): not read by the campaign
+                    # the CCCD the server made for the last characteristic (AttributeValueV2 -> read_cccd/write_cccd)
+                    if not (isinstance(value, self.att.AttributeValueV2) and a.type == self.att.UUID.from_16_bits(0x2902)):
+                        raise ValueError(f'attribute {a.handle}: value object {value!r} is not modelled')
+                    value = b'\x00\x00'
+                    cccd = last_char
             out.append([a.handle, list(a.type.uuid_bytes), int(a.permissions), list(bytes(value)),
-                        a.end_group_handle, rerr, werr])
+                        a.end_group_handle, rerr, werr, cccd])
         return out
 
     def values(self):
@@ -361,19 +381,17 @@ def run_impl(scn):
                 if a is not None:
                     env.spawn(f(env.bearer, a, v, bool(o[3])))
             elif o[0] == 'cccd':
-                h = env.cccd_handle(o[1])
-                env.deliver(bytes([0x12, h & 0xFF, h >> 8]) + bytes.fromhex(o[2]))
+                esc = env.deliver(bytes.fromhex(cccd_write(model_db, o)))
             else:
                 raise ValueError(o)
             if not await settle():
                 esc = 'hang'
             out = env.sent[before:]
-            if o[0] == 'cccd':
-                out = [p for p in out if p != b'\x13']       # the Write Response to the CCCD write
             outs.append([p.hex() for p in out])
             escaped.append(esc)
         res = {'outs': outs, 'escaped': escaped, 'values': [v.hex() for v in env.values()],
                'mtu': env.bearer.att_mtu, 'mtus': mtus, 'db': model_db,
+               'ops': [['rx', cccd_write(model_db, o)] if o[0] == 'cccd' else o for o in scn['ops']],
                'pending': env.server.pending_confirmations.get(env.bearer) is not None}
         for t in env.tasks:
             t.cancel()
@@ -418,9 +436,16 @@ def _digest_of_coq(v):
 
 
 def coq_attr(a):
-    h, ty, perm, value, end, rerr, werr = a
+    h, ty, perm, value, end, rerr, werr, cccd = a
     return (f'mkAttr {coq_z(h)} {coq_bytes(bytes(ty))} {coq_z(perm)} {coq_bytes(bytes(value))} '
-            f'{coq_z(end)} {coq_z(rerr)} {coq_z(werr)}')
+            f'{coq_z(end)} {coq_z(rerr)} {coq_z(werr)} {coq_z(cccd)}')
+
+
+def cccd_write(model_db, o):
+    """['cccd', characteristic handle, hex value] is a Write Request to the CCCD the server made for that
+    characteristic; returns the PDU as hex"""
+    h = next(a[0] for a in model_db if a[7] == o[1])
+    return (bytes([0x12, h & 0xFF, h >> 8]) + bytes.fromhex(o[2])).hex()
 
 
 def coq_bool(b):
@@ -435,7 +460,9 @@ def coq_optbytes(hexs):
     return 'None' if hexs is None else f'(Some {coq_bytes(bytes.fromhex(hexs))})'
 
 
-def coq_op(o):
+def coq_op(o, model_db=None):
+    if o[0] == 'cccd':
+        o = ['rx', cccd_write(model_db, o)]
     if o[0] == 'rx':
         p = bytes.fromhex(o[1])
         return f'Rx {coq_z(p[0])} {coq_params(p[1:])}'
@@ -445,15 +472,13 @@ def coq_op(o):
         return f'Notify {coq_z(o[1])} {coq_optbytes(o[2])} {coq_bool(o[3])}'
     if o[0] == 'indicate':
         return f'Indicate {coq_z(o[1])} {coq_optbytes(o[2])} {coq_bool(o[3])}'
-    if o[0] == 'cccd':
-        return f'SetCccd {coq_z(o[1])} {coq_bytes(bytes.fromhex(o[2]))}'
     raise ValueError(o)
 
 
 def coq_scenario(model_db, scn):
     """closed Coq term: (outputs per op, final values, final mtu)"""
     db = coq_list(model_db, coq_attr)
-    ops = coq_list(scn['ops'], coq_op)
+    ops = coq_list(scn['ops'], lambda o: coq_op(o, model_db))
     return (f"let r := run (init {db} {coq_bearer(scn['bearer'])} {coq_z(scn.get('max_mtu', 517))}) {ops} in "
             f"(opt_out r, final_values r, final_mtu r)")
 
@@ -522,7 +547,11 @@ def gen_request(rng, opcode, model_db, mtu):
     handles = [a[0] for a in model_db]
     nh = len(handles)
 
+    special = [a[0] for a in model_db if a[5] or a[6] or a[7]]      # callback-backed values and CCCDs
+
     def handle():
+        if special and rng.chance(1, 4):
+            return rng.choice(special)
         r = rng.below(12)
         if r == 0:
             return 0
@@ -603,10 +632,10 @@ def gen_request(rng, opcode, model_db, mtu):
             k = rng.choice([0, 1, 2, 2, 3, 3, 4, 5, 8, 12, 30, 30, 120 if rng.chance(1, 4) else 6])
             p = b''.join(le16(handle()) for _ in range(k))
     elif opcode in (0x12, 0x52, 0xD2):
-        n = rng.choice([0, 1, 2, 5, 20, mtu - 3, 100, 511, 512, 513, 600, rng.below(40)])
+        n = rng.choice([0, 1, 2, 2, 3, 5, 20, mtu - 3, 100, 511, 512, 513, 600, rng.below(40)])
         p = le16(handle()) + _payload(rng, max(0, n))
     elif opcode == 0x16:
-        p = le16(handle()) + le16(rng.below(20)) + rng.bytes(rng.below(10))
+        p = le16(handle()) + le16(rng.below(20)) + _payload(rng, rng.choice([0, 1, 2, 3, mtu - 5, rng.below(10)]))
     elif opcode == 0x18:
         p = bytes([rng.below(2)])
     elif opcode == 0x1E:
